@@ -900,8 +900,7 @@ func MergeIQRs(iqrs []*IQR, less func(*Record, *Record) bool) (*IQR, int, error)
 		for _, cname := range originalKnownColumns {
 			value, err := record.ReadColumn(cname)
 			if err != nil {
-				value.CVal = nil
-				value.Dtype = sutils.SS_DT_BACKFILL
+				value = &sutils.CValueEnclosure{CVal: nil, Dtype: sutils.SS_DT_BACKFILL}
 			}
 
 			iqr.knownValues[cname] = append(iqr.knownValues[cname], *value)
